@@ -273,6 +273,23 @@ func (m *c03Machine) checkRange(t *iavl.ImmutableTree, model kv.Model, start, en
 	if !kv.EqualPairs(got, want) {
 		m.c.Violation("C03/iterate-range/listing-differs-from-model", "%s: IterateRange(%x,%x,asc=%v): got %s want %s", where, start, end, asc, kv.Render(got), kv.Render(want))
 	}
+	// the same range again with a callback that asks to stop early (after 1 item, and after half of them): exactly that
+	// many items are delivered, the first ones in order, and the iteration reports that it was stopped
+	for _, stopAfter := range []int{1, 1 + len(want)/2} {
+		if stopAfter >= len(want) {
+			continue
+		}
+		var part []kv.Pair
+		stopped := t.IterateRange(start, end, asc, func(k, v []byte) bool {
+			part = append(part, kv.Pair{K: append([]byte{}, k...), V: append([]byte{}, v...)})
+			return len(part) >= stopAfter
+		})
+		m.c.Label("range-stopped-early")
+		if !kv.EqualPairs(part, want[:stopAfter]) || !stopped {
+			m.c.Violation("C03/iterate-range/early-stop-delivers-other-items", "%s: IterateRange(%x,%x,asc=%v) with a callback that stops after %d item(s): delivered %s (stopped=%v), want %s",
+				where, start, end, asc, stopAfter, kv.Render(part), stopped, kv.Render(want[:stopAfter]))
+		}
+	}
 }
 
 // rootKey returns the split key of the root inner node (= first leaf of its right subtree), nil for leaf/empty roots.
